@@ -53,6 +53,10 @@ CHECKS['C07'] = dict(cat='other',
     tech='CrossHair/z3 over the real Project.norm_package/get_module/list_packages with a symbolic in-memory file system (solver variables decide which files exist), vs real importlib.util.resolve_name and a PathFinder model validated against real importlib',
     text='Bounded symbolic execution: the number of leading dots, which directories are packages, which module/package/extension files exist in two source roots and the root order are solver variables; a path forks only on the os.path.exists calls actually made. Relative names resolve exactly as importlib.util.resolve_name (real function, same path); get_module picks the file the import system would load and raises ImportError exactly when nothing is found; sub-package listings equal what pkgutil can enumerate.',
     note='file system stubbed in memory, sys.path not consulted, __import__ of extension modules faked; PathFinder/pkgutil model validated on materialised trees each run; outside: namespace packages, same-name module+package or source+extension in one directory, .pyc-only, zip, builtin/frozen.', ref='3/C07')
+CHECKS['C09'] = dict(cat='other',
+    tech='CrossHair/z3 over the real Project/SourceModule cache logic with symbolic modification times and an in-memory file system; differential: long-lived project under check_changes() vs a fresh Project',
+    text='Bounded symbolic execution: histories of 1..2 rewrites (file and content variant enumerated) over a three-module project with star-import / attribute / from-import / re-export edges, warm-up requests in between; the modification times are solver integers constrained only by "an edit changes the mtime" (backwards and repeating clocks included). Every final request (assist, location, lint) must equal the same request on a new Project. Candidates are replayed on a real directory with os.utime.',
+    note='file access stubbed in memory; ast.parse/extract run untraced; deletions, __init__ removal, shadowing outside; one known finding (module created after its importer was analysed) is carved out of the query by its history shape.', ref='3/C09')
 NA = {}
 
 def main():
